@@ -34,6 +34,9 @@ def repo_setup() -> None:
     import warnings
     warnings.filterwarnings("ignore")
     os.environ.setdefault("PYTATO_VERIF", "1")
+    # hermetic: no on-disk loopy/pytools caches shared between runs
+    os.environ["LOOPY_NO_CACHE"] = "1"
+    os.environ["CG_NO_CACHE"] = "1"
     import pytato  # noqa: F401
     got = os.path.realpath(os.path.dirname(os.path.dirname(pytato.__file__)))
     if got != repo:
